@@ -60,6 +60,21 @@ var specs = map[string]*PropSpec{
 		StepKeys: []string{"reader_calls", "writer_calls"},
 		Assumptions: []string{"watchdog is wall-clock: 10 s (quick) / 30 s (thorough) per library call whose normal cost is < 10 ms; worker address space capped at 8 GiB"},
 	},
+	"C09": {
+		Level: "fault_enumeration", QuickRuns: 5000, ThorRuns: 150000, QuickCap: 150 * time.Second, ThorCap: 25 * time.Minute, QuickWD: 10000, ThorWD: 30000,
+		Rule: "one run = one valid document (CBE: any top-level object, no trailing padding; CTE: top-level container ending with its closing delimiter), either the real encoder's output for a generated rules-valid event stream or the real marshaler's output for a generated Go value. Crash point = clean EOF after byte k, enumerated for EVERY k in 0<k<len(doc), x {UnmarshalFrom*Document, Unmarshal* through a SimReader that ends at k under a drawn delivery plan} x {untyped template, template of the marshaled value's type}. Oracle per cut: err != nil; partial value is a prefix of the value the complete document yields (shared Prefix relation); for event-stream documents with the untyped template, completeness against the event-nesting model built from recorded encoder offsets (every completely delivered list element / map entry on the path to the cut is present and equal to the full value's). Every evaluation is a fault (non-trivial); distinct = hash of (document, template, cut, entry)",
+		Stubs: []string{"SimReader with cut point"}, Real: commonReal,
+		StepKeys:   []string{"reader_calls"},
+		Exhaustive: "all cut points 0<k<len(doc) of each generated document (documents over 700 bytes are skipped in the quick tier)",
+		Assumptions: []string{"rule enforcement stays enabled (Marshal.EnforceRules=true): with rule checks disabled by the caller nothing is meant to notice a structurally incomplete document", "the zero value of a template type counts as 'nothing decoded'; typed arrays may be element-wise prefixes; strings and other leaves are atomic"},
+	},
+	"C29": {
+		Level: "fault_enumeration", QuickRuns: 6000, ThorRuns: 120000, QuickCap: 150 * time.Second, ThorCap: 25 * time.Minute, QuickWD: 10000, ThorWD: 30000,
+		Rule: "one run = one generated Go value (marshal), document (unmarshal/decode through a reader) or event stream (low-level encoder API) x format x configuration. After a fault-free control, every position of a single fault is enumerated: writer - fail the j-th call for every j the control made (+1 that never fires), as (0,err) and as short write+err, and disk-full at every byte count 0..len(output), for both writer flavours (io.Writer only, io.Writer+io.StringWriter); reader - a non-EOF error at every byte offset 0..len(doc) as (0,err), as (m>0,err) and transient, under three delivery plans; then drawn two-fault sequences. Oracle: a fired fault => non-nil error (encoder event: does not return normally), no escaped panic; no fired fault => same success as the control. Non-trivial = a fault actually fired; distinct = hash of (case, flavour/plan, fault)",
+		Stubs: []string{"SimReader with fault plan", "SimWriter with fault plan (two flavours)"}, Real: commonReal,
+		StepKeys:   []string{"reader_calls", "writer_calls"},
+		Exhaustive: "single write-failure positions (call index and byte count, both writer flavours), single read-failure offsets (three kinds); byte positions are strided above 300-400 bytes in the quick tier only",
+	},
 	"C28": {
 		Level: "exploration", QuickRuns: 2400, ThorRuns: 120000, QuickCap: 150 * time.Second, ThorCap: 25 * time.Minute, QuickWD: 10000, ThorWD: 30000,
 		Rule: "one run = one generated document (valid, or corrupted by 1-2 storage faults) x one reader entry point x config/template; evaluated under drawn delivery plans and, for small documents, every single split offset, every single (0,nil) position, data+EOF and 1-byte delivery; reference = from-memory twin on fresh instances. A case is non-trivial if the reader actually produced a short read, a (0,nil) read or data together with EOF; distinct = distinct (document, entry, config, plan) hashes",
